@@ -91,7 +91,7 @@ def check_run(ctx, p, res, base, replay, run_no, truth_changed_before, via, stre
 
 
 def one_history(ctx, i, tmproot):
-    rng = ctx.rng
+    rng = ctx.case_rng(i)
     root = tempfile.mkdtemp(prefix="h", dir=tmproot)
     try:
         truth = KINDS[i % 3]
@@ -99,22 +99,26 @@ def one_history(ctx, i, tmproot):
         pre = {others[0]: PRESTATES[(i // 3) % 5], others[1]: PRESTATES[(i // 15) % 5]}
         method = (i // 75) % 2 == 1
         rich = i % 2 == 1
-        p = make_project(rng, root, truth, pre, method=method, rich=rich)
+        via_symlink = rng.random() < 0.35  # every file is named through a symlinked directory
+        hand_written = rng.random() < 0.5
+        p = make_project(rng, root, truth, pre, method=method, rich=rich, via_symlink=via_symlink, hand_written=hand_written)
         switch = i % 4 == 3  # switch the truth kind mid-history
         length = 2 + i % 3
         via = "cli" if i % 9 == 4 else "api"
         truths = [truth] * length
         if switch:
             truths = [truth, truth] + [others[0]] * 2
-        base = {"op": OP, "truth0": truth, "switch": switch, "method": method, "rich": rich, "via": via,
+        base = {"op": OP, "truth0": truth, "switch": switch, "method": method, "rich": rich, "via": via, "via_symlink": via_symlink, "hand_written": hand_written,
                 "pre_states": sorted(set(pre.values())), "length": len(truths),
                 "truth_func_before": p.features.get(truth + "_func_before", False)}
-        replay = {"i": i, "seed": ctx.seed, "shard": list(ctx.shard), "pre": pre, "truths": truths,
+        replay = {"case": i, "seed": ctx.seed, "tier": ctx.tier, "pre": pre, "truths": truths,
                   "files": {os.path.basename(f): (open(f).read() if os.path.exists(f) else None) for f in p.files.values()}}
         ctx.case((tuple(truths), tuple(sorted(pre.items())), method, rich, via, i), nontrivial=any(s != "agreeing" for s in pre.values()),
                  sample={"truths": truths, "pre": pre, "method": method, "via": via}, sample_key=(switch, via))
         ctx.feature("length={}".format(len(truths)))
         ctx.feature("switch" if switch else "same_truth")
+        ctx.feature("named_via_symlink" if via_symlink else "named_directly")
+        ctx.feature("hand_written" if hand_written else "emitter_formatted")
         counts_prev = None
         prev_truth = None
         streak = {}
@@ -136,6 +140,8 @@ def one_history(ctx, i, tmproot):
         ctx.event("histories")
     finally:
         shutil.rmtree(root, ignore_errors=True)
+        if os.path.islink(root.rstrip(os.sep) + "_lnk"):
+            os.unlink(root.rstrip(os.sep) + "_lnk")
 
 
 def run(ctx):
@@ -154,6 +160,11 @@ def run(ctx):
 def replay(payload):
     from ..runner import Ctx
 
-    ctx = Ctx(PROPERTY, "quick", 0)
-    ctx.case(("replay",))
+    rp = payload["replay"]
+    ctx = Ctx(PROPERTY, rp.get("tier", "quick"), rp.get("seed", 0))
+    tmproot = tempfile.mkdtemp(prefix="dtverif-c10-")
+    try:
+        one_history(ctx, rp["case"], tmproot)
+    finally:
+        shutil.rmtree(tmproot, ignore_errors=True)
     return ctx
